@@ -127,59 +127,6 @@ class GenRule(TermRule):
         return res
 
     # ---- calls
-    def _signature(self, it, node, recv, q):
-        """positional-or-keyword parameter names of a repo callee (None when the callee is not a repo function)"""
-        m = it.m
-        f = node.func
-        fi = None
-        if isinstance(f, ast.Attribute):
-            if recv is not None and recv.kind == "self" and it.self_cls:
-                fi = m.find_method(it.self_cls, f.attr)
-            elif isinstance(f.value, ast.Name) and f.value.id == "cls" and it.self_cls:
-                fi = m.find_method(it.self_cls, f.attr)
-            elif isinstance(f.value, ast.Call) and ast.unparse(f.value.func) == "super" and it.self_cls:
-                for c in m.mro(it.self_cls)[1:]:
-                    ci = m.classes.get(c)
-                    if ci is not None and f.attr in ci.methods:
-                        fi = ci.methods[f.attr]
-                        break
-            elif q and q in m.funcs:
-                fi = m.funcs[q]
-        elif isinstance(f, ast.Name) and q:
-            if q in m.funcs:
-                fi = m.funcs[q]
-            elif q in m.classes:
-                fi = m.find_method(q, "__init__")
-                if fi is None or not fi.qual.startswith("urllib3."):
-                    ci = m.classes[q]
-                    names = [n.target.id for n in ci.node.body if isinstance(n, ast.AnnAssign) and isinstance(n.target, ast.Name)]
-                    return names or None
-        if fi is None or not fi.qual.startswith("urllib3."):
-            return None
-        a = fi.node.args
-        names = [x.arg for x in a.posonlyargs + a.args]
-        if fi.cls is not None and names and names[0] in ("self", "cls") and not any("staticmethod" in d for d in fi.decorators):
-            names = names[1:]
-        return names
-
-    def _canon_args(self, it, node, recv, q, pos, kw):
-        """f(a, y=b) and f(a, b) are the same call when y is f's second parameter: keywords that continue the positional
-        prefix of a repo callee's signature are moved into it."""
-        if not kw or "*" in kw:
-            return pos, kw
-        try:
-            names = self._signature(it, node, recv, q)
-        except Exception:
-            names = None
-        if not names:
-            return pos, kw
-        pos, kw = list(pos), dict(kw)
-        i = len(pos)
-        while i < len(names) and names[i] in kw:
-            pos.append(kw.pop(names[i]))
-            i += 1
-        return pos, kw
-
     def call_hook(self, it, st, node, recv, pos, kw):
         f = node.func
         text = ast.unparse(f)
@@ -535,3 +482,19 @@ def bind(names, args):
                 out[f"#{i}"] = a
             i += 1
     return out
+
+
+ARITH = {"add", "sub", "mul", "neg", "abs", "min", "max", "float", "int", "const", "truediv", "floordiv", "mod", "pow"}
+
+
+def within_vocabulary(term, ops):
+    """Does `term` use only operations of the given vocabulary (atoms and constants are always allowed)?  A rule that
+    expects a particular idiom decides exactly inside its vocabulary and falls back to provenance outside it (DESIGN 13.2)."""
+    from .terms import subterms as _st
+    for x in _st(term):
+        op, _ = destruct(x)
+        if op is None or op == "const":
+            continue
+        if op not in ops:
+            return False
+    return True
